@@ -16,21 +16,28 @@ from harness.common import Raw, cq, cq_opt
 
 PID = "C09"
 PARALLEL = 6
-IMPORTS = "From Verif Require Import C09.Model C09.Spec C09.Corr."
+IMPORTS = "From Verif Require C01.Model C04.Model.\nFrom Verif Require Import C09.Model C09.Spec C09.Corr.\nFrom VerifGen Require Import C09Abbrev."
 CASE_TYPE = "C09.Corr.case"
 RUNNER = "C09.Corr.run"
 FINDING_CLASSES = {1: "C09-F1", 2: "C09-F2"}
 RULE = ("complete lattice sign_response x sign_assertion given as argument (None/True/False) x as configuration "
-        "(unset/True/False/'true'/'false'/''/'yes') = 441 cells on a fixed request; complete product NameIDPolicy "
-        "format(6) x SPNameQualifier(3) x supplied name_id(2) x stored identifiers(4) x policy shape(4); complete "
-        "product of the 8 policy-section shapes (requester / registration authority / default / '' present, absent "
-        "or None) x lifetime given or not; update_farg preset lattice 2^3 x in_response_to(2) x destination(2); "
-        "signing / digest algorithm by argument x configuration x default over the live allowed lists plus one "
-        "non-allowed value; plus seeded random requests (identity: 1-5 attributes, multi-valued, unicode; 3 "
-        "requesters; lifetimes over all seven timedelta units).  Every produced Response is read by the "
-        "independent reader, its signatures verified through the stand-in, and (where an SP setting is part of "
-        "the case: want_* options, clock offset, outstanding request) fed to a real Saml2Client.  non-trivial = "
-        "distinct (option cell, name-id path, policy path, farg shape, algorithm source, SP verdict)")
+        "(unset/True/False/'true'/'false'/''/'yes') = 441 cells, each Response also shown to an SP; complete product "
+        "NameIDPolicy (absent, or Format in None/''/transient/persistent/emailAddress/unspecified x SPNameQualifier in "
+        "None/affiliation/requester) x 4 identifier-store states x 4 policy shapes (x supplied name_id in the deep tier); "
+        "complete product of 4 section kinds (absent / None / {} / lifetime+format) over the policy keys requester, "
+        "registration authority, 'default', '' (256 with, 64 without registration info) given by configuration or as "
+        "release_policy, plus a seeded sample (deep tier: all 4802) of the 7-kind product; update_farg preset lattice "
+        "3^3 x in_response_to(2) x destination(2) (quick: seeded half); signing and digest algorithm by argument x idp "
+        "configuration x default over the LIVE allowed lists plus one non-allowed value, for the three signing "
+        "combinations; receiving side: complete want_response_signed x want_assertions_signed x "
+        "want_assertions_or_response_signed (unset/True/False/'true') x what was signed (256), SP clock offsets around "
+        "issue time, expiry and the one-day issue-instant bound x 6 lifetimes x accepted_time_diff, outstanding-request "
+        "sets x allow_unsolicited x InResponseTo, requester x SP identity x consumer URL, issuer override, authn "
+        "context shapes; plus seeded random requests (identity 1-5 attributes, multi-valued, unicode; 3 requesters; "
+        "lifetimes over all seven timedelta units incl. negative and fractional; random clock).  Every produced Response "
+        "is read by the independent reader (xml.etree), its signatures verified through the stand-in under the IdP "
+        "certificate, and (where an SP setting is part of the case) fed to a real Saml2Client.  non-trivial = distinct "
+        "(option cell, name-id source/format/policy, policy shape, farg shape, algorithm source, SP verdict)")
 TRUSTED = ["xmlsec1 stand-in (harness/standin/xmlsec1.py)", "independent reader + abstraction in harness/c09.py",
            "SP acceptance models C01/C04/C05/C06 (each tied to the code by its own check)"]
 ASSUMPTIONS = [
@@ -43,6 +50,7 @@ ASSUMPTIONS = [
     "an SPNameQualifier other than the requester is not itself an entity with registration info",
     "the signature algorithms used are those the stand-in implements (no RIPEMD160 digest)",
     "a signature made with the IdP key verifies under the certificate in the same metadata (C03's ground)",
+    "the composed acceptance models cover bearer confirmation: the SP is not run for a preset non-bearer method",
 ]
 
 SERVER_PY = os.path.join(env.SRC, "saml2", "server.py")
@@ -130,5 +138,834 @@ def regenerate_tables(ctx):
     for k in ("SCM_BEARER", "NAMEID_FORMAT_PERSISTENT", "NAMEID_FORMAT_TRANSIENT", "NAMEID_FORMAT_EMAILADDRESS"):
         L.append("Definition %s : string := %s." % (k, cq(t[k])))
     changed = common.write_if_changed(os.path.join(common.GEN, "C09Tables.v"), "\n".join(L) + "\n")
+    ab = ["(* GENERATED by harness/c09.py: names for frequently used strings (keeps the case files fast to parse). *)",
+          "From Coq Require Import String.", "Open Scope string_scope.", ""]
+    for x, name in abbr().items():
+        ab.append("Definition %s := %s." % (name, common.cq_str(x)))
+    common.write_if_changed(os.path.join(common.GEN, "C09Abbrev.v"), "\n".join(ab) + "\n")
     return {"file": "coq/gen/C09Tables.v", "param_defaults": {k: repr(v) for k, v in pd.items()},
             "lifetime_default": t["lifetime_default"], "changed": changed, "obligations": 1, "discharged": 1}
+
+
+# ------------------------------------------------------------------------------ the little federation
+IDP = world.IDP_ID
+POST, REDIRECT = world.BINDING_HTTP_POST, world.BINDING_HTTP_REDIRECT
+REQUESTERS = {
+    world.SP_ID: (world.SP_ACS_POST, world.SP_ACS_REDIRECT),
+    "https://sp2.example.org/metadata": ("https://sp2.example.org/acs/post", "https://sp2.example.org/acs/redirect"),
+    "urn:example:sp:three": ("https://three.example.net/saml/acs", "https://three.example.net/saml/acs-r"),
+}
+RA = "https://fed.example.org/ra"
+AFF = "urn:example:affiliation:1"
+NOW = spaccept.NOW
+NF_T = "urn:oasis:names:tc:SAML:2.0:nameid-format:transient"
+NF_P = "urn:oasis:names:tc:SAML:2.0:nameid-format:persistent"
+NF_E = "urn:oasis:names:tc:SAML:1.1:nameid-format:emailAddress"
+NF_U = "urn:oasis:names:tc:SAML:1.1:nameid-format:unspecified"
+AC_PW = "urn:oasis:names:tc:SAML:2.0:ac:classes:Password"
+AC_PPT = "urn:oasis:names:tc:SAML:2.0:ac:classes:PasswordProtectedTransport"
+SCM_SV = "urn:oasis:names:tc:SAML:2.0:cm:sender-vouches"
+MD5 = "http://www.w3.org/2001/04/xmldsig-more#rsa-md5"
+DMD5 = "http://www.w3.org/2001/04/xmldsig-more#md5"
+SHA256 = "http://www.w3.org/2001/04/xmldsig-more#rsa-sha256"
+DSHA512 = "http://www.w3.org/2001/04/xmlenc#sha512"
+ATTR_NAMES = ["mail", "givenName", "sn", "cn", "displayName", "eduPersonAffiliation", "uid", "title", "o",
+              "eduPersonScopedAffiliation"]
+CFGV = [None, True, False, "true", "false", "", "yes"]      # None = not configured
+ARGV = [None, True, False]
+OPTV = [None, True, False, "true"]                            # SP want_* options
+
+
+def sp_md(entity_id, ra=None):
+    post, red = REQUESTERS[entity_id]
+    x = world.sp_descriptor(entity_id, [("sp", None)], acs=[(POST, post, 1), (REDIRECT, red, 2)])
+    if ra is not None:
+        ext = ('<md:Extensions><mdrpi:RegistrationInfo xmlns:mdrpi="urn:oasis:names:tc:SAML:metadata:rpi" '
+               'registrationAuthority=%s/></md:Extensions>' % quoteattr(ra))
+        x = x.replace("<md:SPSSODescriptor", ext + "<md:SPSSODescriptor", 1)
+    return x
+
+
+def py_policy(pol):
+    """[[key, None | {"lifetime": [[unit, n]..] | None, "nameid_format": str | None}], ..] -> config dict."""
+    if pol is None:
+        return None
+    out = {}
+    for k, sec in pol:
+        if sec is None:
+            out[k] = None
+            continue
+        d = {}
+        if sec.get("lifetime") is not None:
+            d["lifetime"] = {u: n for u, n in sec["lifetime"]}
+        if sec.get("nameid_format") is not None:
+            d["nameid_format"] = sec["nameid_format"]
+        if sec.get("other"):
+            d["name_form"] = "urn:oasis:names:tc:SAML:2.0:attrname-format:uri"
+        out[k] = d
+    return out
+
+
+_idp_cache = {}
+_memo_installed = False
+
+
+def _memo_keys():
+    """Parsing a PEM private key costs ~50 ms (RSA consistency check) and happens for every entity built and
+    every signature made; the parser is a pure function of the file content, so it is memoised for the run."""
+    global _memo_installed
+    if _memo_installed:
+        return
+    import cryptography.hazmat.primitives.serialization as ser
+
+    orig, memo = ser.load_pem_private_key, {}
+
+    def load_pem_private_key(data, password=None, *a, **kw):
+        k = (bytes(data), password)
+        if a or kw or k not in memo:
+            key = orig(data, password, *a, **kw)
+            if a or kw:
+                return key
+            memo[k] = key
+        return memo[k]
+
+    ser.load_pem_private_key = load_pem_private_key
+    _memo_installed = True
+
+
+def get_idp(case):
+    cfg = case["cfg"]
+    key = json.dumps([cfg, case["ra"], case["args"]["sp"]], sort_keys=True)
+    idp = _idp_cache.get(key)
+    if idp is None:
+        over = {}
+        for k_case, k_conf in (("sr", "idp_sign_response"), ("sa", "idp_sign_assertion"), ("domain", "idp_domain"),
+                               ("salg", "idp_signing_algorithm"), ("dalg", "idp_digest_algorithm")):
+            if cfg[k_case] is not None:
+                over[k_conf] = cfg[k_case]
+        over["idp_policy"] = py_policy(cfg["pol"])
+        mds = [sp_md(e, case["ra"] if e == case["args"]["sp"] else None) for e in REQUESTERS]
+        idp = world.make_idp(metadata_xml=mds, **over)
+        if len(_idp_cache) > 64:
+            _idp_cache.clear()
+        _idp_cache[key] = idp
+    idp.ident.db = {}
+    return idp
+
+
+# ------------------------------------------------------------------------------ the independent reader
+NS_A = "{urn:oasis:names:tc:SAML:2.0:assertion}"
+NS_P = "{urn:oasis:names:tc:SAML:2.0:protocol}"
+NS_D = "{http://www.w3.org/2000/09/xmldsig#}"
+
+
+class Malformed(Exception):
+    pass
+
+
+def _iso(s):
+    import calendar
+    import time
+
+    if s is None:
+        raise Malformed("time missing")
+    try:
+        return calendar.timegm(time.strptime(s, "%Y-%m-%dT%H:%M:%SZ"))
+    except ValueError:
+        raise Malformed("time %r" % s)
+
+
+def _one(el, tag, optional=False):
+    l = el.findall(tag)
+    if len(l) > 1 or (not l and not optional):
+        raise Malformed("%d x %s" % (len(l), tag))
+    return l[0] if l else None
+
+
+def _only_children(el, allowed):
+    for ch in el:
+        if ch.tag not in allowed:
+            raise Malformed("unexpected %s in %s" % (ch.tag, el.tag))
+
+
+def _signature(xml_bytes, el, elem_name):
+    """None = the element carries no signature; (sig alg, digest alg) = it carries one enveloped signature over
+    itself which verifies under the IdP certificate (stand-in); anything else is malformed."""
+    sigs = el.findall(NS_D + "Signature")
+    if not sigs:
+        return None
+    if len(sigs) > 1:
+        raise Malformed("two signatures")
+    si = _one(sigs[0], NS_D + "SignedInfo")
+    ref = _one(si, NS_D + "Reference")
+    if ref.get("URI") != "#" + (el.get("ID") or ""):
+        raise Malformed("signature reference %r" % ref.get("URI"))
+    alg = _one(si, NS_D + "SignatureMethod").get("Algorithm")
+    dig = _one(ref, NS_D + "DigestMethod").get("Algorithm")
+    m = env.standin()
+    opts = {"id_attrs": [("ID", elem_name)], "node_id": el.get("ID"), "pubkey_cert": fixtures.cert_path("idp"),
+            "enabled_key_data": ["raw-x509-cert"], "files": []}
+    try:
+        out, _, _ = m.do_verify(opts, xml_bytes)
+    except m.XErr as e:
+        raise Malformed("signature check: %s" % e)
+    if out is None:
+        raise Malformed("signature does not verify")
+    return [alg, dig]
+
+
+def read_response(xml_text):
+    """Abstract record of a Response, using xml.etree only."""
+    xml_bytes = xml_text.encode("utf-8") if isinstance(xml_text, str) else xml_text
+    root = ET.fromstring(xml_bytes)
+    if root.tag != NS_P + "Response":
+        raise Malformed("root %s" % root.tag)
+    _only_children(root, {NS_A + "Issuer", NS_D + "Signature", NS_P + "Status", NS_A + "Assertion"})
+    if root.get("Version") != "2.0":
+        raise Malformed("version")
+    st = _one(root, NS_P + "Status")
+    if _one(st, NS_P + "StatusCode").get("Value") != "urn:oasis:names:tc:SAML:2.0:status:Success" or len(st) != 1:
+        raise Malformed("status")
+    r = {"r_issuer": _one(root, NS_A + "Issuer").text, "r_irt": root.get("InResponseTo"),
+         "r_dest": root.get("Destination"), "r_issue": _iso(root.get("IssueInstant")),
+         "s_response": _signature(xml_bytes, root, render.R_ELEM)}
+    a = _one(root, NS_A + "Assertion")
+    _only_children(a, {NS_A + "Issuer", NS_D + "Signature", NS_A + "Subject", NS_A + "Conditions",
+                       NS_A + "AuthnStatement", NS_A + "AttributeStatement"})
+    if a.get("Version") != "2.0" or _iso(a.get("IssueInstant")) != r["r_issue"]:
+        raise Malformed("assertion header")
+    r["i_issuer"] = _one(a, NS_A + "Issuer").text
+    r["s_assertion"] = _signature(xml_bytes, a, render.A_ELEM)
+    subj = _one(a, NS_A + "Subject")
+    _only_children(subj, {NS_A + "NameID", NS_A + "SubjectConfirmation"})
+    n = _one(subj, NS_A + "NameID")
+    r["nid"] = {"format": n.get("Format"), "spnq": n.get("SPNameQualifier"), "nq": n.get("NameQualifier")}
+    r["nid_text"] = n.text or ""
+    sc = _one(subj, NS_A + "SubjectConfirmation")
+    r["i_method"] = sc.get("Method")
+    scd = _one(sc, NS_A + "SubjectConfirmationData")
+    if set(scd.keys()) - {"NotOnOrAfter", "Recipient", "InResponseTo"} or len(scd):
+        raise Malformed("confirmation data %r" % sorted(scd.keys()))
+    r["i_recipient"], r["i_irt"], r["i_nooa_sc"] = scd.get("Recipient"), scd.get("InResponseTo"), _iso(scd.get("NotOnOrAfter"))
+    c = _one(a, NS_A + "Conditions")
+    _only_children(c, {NS_A + "AudienceRestriction"})
+    r["i_nb"], r["i_nooa_cond"] = _iso(c.get("NotBefore")), _iso(c.get("NotOnOrAfter"))
+    r["i_aud"] = [[(x.text or "") for x in ar.findall(NS_A + "Audience")] for ar in c.findall(NS_A + "AudienceRestriction")]
+    au = _one(a, NS_A + "AuthnStatement", optional=True)
+    if au is None:
+        r["i_authn"] = None
+    else:
+        if au.get("SessionNotOnOrAfter") is not None or _iso(au.get("AuthnInstant")) != r["r_issue"]:
+            raise Malformed("authn statement")
+        ctx = _one(au, NS_A + "AuthnContext", optional=True)
+        if ctx is None:
+            r["i_authn"] = [None, None]
+        else:
+            cr = _one(ctx, NS_A + "AuthnContextClassRef", optional=True)
+            aa = _one(ctx, NS_A + "AuthenticatingAuthority", optional=True)
+            r["i_authn"] = [cr.text if cr is not None else None, aa.text if aa is not None else None]
+    ats = _one(a, NS_A + "AttributeStatement", optional=True)
+    attrs = {}
+    if ats is not None:
+        for at in ats:
+            if at.tag != NS_A + "Attribute":
+                raise Malformed("attribute statement child %s" % at.tag)
+            k = at.get("FriendlyName") or at.get("Name")
+            if k in attrs:
+                raise Malformed("attribute twice")
+            attrs[k] = [(v.text or "") for v in at.findall(NS_A + "AttributeValue")]
+    r["attrs"] = sorted([k, v] for k, v in attrs.items())
+    return r
+
+
+# ------------------------------------------------------------------------------ observe
+def _farg_dict(f):
+    if f is None:
+        return None
+    if f == "empty":
+        return {}
+    sc = {}
+    if f["method"] is not None:
+        sc["method"] = f["method"]
+    scd = {}
+    if f["irt"] is not None:
+        scd["in_response_to"] = f["irt"]
+    if f["recipient"] is not None:
+        scd["recipient"] = f["recipient"]
+    if scd:
+        sc["subject_confirmation_data"] = scd
+    return {"assertion": {"subject": {"subject_confirmation": sc}}}
+
+
+def sp_over(case):
+    s = case["spside"]
+    post, red = REQUESTERS[s["me"]]
+    over = {"entityid": s["me"], "metadata_xml": [world.default_idp_md(), world.default_other_md()],
+            "sp_endpoints": {"assertion_consumer_service": [(post, POST), (red, REDIRECT)],
+                             "single_logout_service": [(world.SP_SLO_REDIRECT, REDIRECT)]}}
+    for k, ck in (("wr", "sp_want_response_signed"), ("wa", "sp_want_assertions_signed"),
+                  ("wor", "sp_want_assertions_or_response_signed")):
+        if s[k] is not None:
+            over[ck] = s[k]
+    if s["atd"] is not None:
+        over["accepted_time_diff"] = s["atd"]
+    if s["allow_unsolicited"]:
+        over["sp_allow_unsolicited"] = True
+    return over
+
+
+def observe(case):
+    env.install_standin()
+    spaccept.CLOCK.install()
+    _memo_keys()
+    from saml2 import SAMLError
+    from saml2.assertion import Policy
+    from saml2.saml import NameID
+    from saml2.samlp import NameIDPolicy
+
+    a = case["args"]
+    spaccept.CLOCK.set(case["now"])
+    try:
+        idp = get_idp(case)
+        for k, st in enumerate(case["stored"]):
+            idp.ident.store(a["userid"], NameID(format=st["format"], sp_name_qualifier=st["spnq"],
+                                                 name_qualifier=st["nq"], text="stored-%d" % k))
+        kw = {}
+        if a["nip"] is not None:
+            kw["name_id_policy"] = NameIDPolicy(format=a["nip"]["format"], sp_name_qualifier=a["nip"]["spnq"])
+        if a["name_id"] is not None:
+            g = a["name_id"]
+            kw["name_id"] = NameID(format=g["format"], sp_name_qualifier=g["spnq"], name_qualifier=g["nq"], text="given-1")
+        if a["authn"] is not None:
+            kw["authn"] = {k: v for k, v in (("class_ref", a["authn"][0]), ("authn_auth", a["authn"][1])) if v is not None}
+        for k in ("issuer", "sign_response", "sign_assertion", "sign_alg", "digest_alg"):
+            if a[k] is not None:
+                kw[k] = a[k]
+        if a["pol"] is not None:
+            kw["release_policy"] = Policy(py_policy(a["pol"]), mds=idp.metadata)
+        if a["farg"] is not None:
+            kw["farg"] = _farg_dict(a["farg"])
+        ident = {k: list(v) for k, v in a["ident"]}
+        out = {"k": "issued"}
+        try:
+            resp = idp.create_authn_response(ident, a["irt"], a["dest"], a["sp"], userid=a["userid"], **kw)
+        except SAMLError as e:
+            return {"k": "error", "e": "ENameId"} if type(e) is SAMLError else {"k": "other", "why": "exc:" + type(e).__name__}
+        except Exception as e:  # noqa
+            return {"k": "error", "e": "EAlg"} if type(e) is Exception else {"k": "other", "why": "exc:" + type(e).__name__}
+        xml = str(resp)
+        try:
+            out.update(read_response(xml))
+        except Malformed as e:
+            return {"k": "other", "why": "malformed:%s" % e}
+        t = out.pop("nid_text")
+        if t == "given-1":
+            out["src"] = "given"
+        elif t.startswith("stored-"):
+            out["src"] = int(t[len("stored-"):])
+        elif len(t) >= 64 and all(c in "0123456789abcdef" for c in t[:64]):
+            out["src"] = "fresh"
+        else:
+            return {"k": "other", "why": "name id text"}
+        if case["spside"] is not None:
+            s = case["spside"]
+            sp = spaccept.get_sp(sp_over(case))
+            spaccept.CLOCK.set(s["now"])
+            outstanding = {k: v for k, v in s["outstanding"]}
+            binding = s["binding"]
+            enc = render.b64(xml) if binding == POST else render.deflate_b64(xml)
+            o = spaccept.observe(sp, xml, binding, outstanding, encoded=enc)
+            if o["exc"] is None and o["ava"] is not None and o["nooa"] is not None and o["name_id"] is not None:
+                out["sp"] = {"ava": sorted([k, list(v)] for k, v in o["ava"].items()), "nooa": o["nooa"],
+                             "came_from": o["came_from"]}
+            else:
+                out["sp"] = None
+                out["sp_exc"] = o["exc"]
+        return out
+    finally:
+        spaccept.CLOCK.set(NOW)
+
+
+# ------------------------------------------------------------------------------ Coq terms
+def abbr_strings():
+    """Strings that occur in (nearly) every case get a name in coq/gen/C09Abbrev.v: Coq parses a string literal
+    character by character, which dominated the evaluation time.  The list is static (independent of the seed)."""
+    t = live_tables()
+    out = []
+    for x in ([IDP, POST, REDIRECT, RA, AFF, NF_T, NF_P, NF_E, NF_U, AC_PW, AC_PPT, SCM_SV, MD5, DMD5, render.SCM_BEARER,
+               "https://idp.example.org/authority", "https://elsewhere.example.org/acs", world.OTHER_ID,
+               "https://nobody.example.org/", "https://a.example.org", "/came/from", "req-1", "req-2", "other-req",
+               "default", "example.org", "a@example.org"]
+              + list(REQUESTERS) + [u for v in REQUESTERS.values() for u in v] + t["sig_allowed"] + t["digest_allowed"]
+              + ["weeks", "days", "hours", "minutes", "seconds", "milliseconds", "microseconds"] + ATTR_NAMES
+              + [v for v in UNI if all(0x20 <= ord(c) <= 0x7E for c in v)]):
+        if x not in out:
+            out.append(x)
+    return out
+
+
+_ABBR = None
+
+
+def abbr():
+    global _ABBR
+    if _ABBR is None:
+        _ABBR = {x: "z%d" % i for i, x in enumerate(abbr_strings())}
+    return _ABBR
+
+
+def cs(x):
+    a = abbr().get(x)
+    return Raw(a) if a is not None else Raw(common.cq_str(x))
+
+
+def cso(x):
+    if x is None:
+        return Raw("None")
+    if isinstance(x, bool):
+        return Raw("(Some %s)" % cq(x))
+    if isinstance(x, int):
+        return Raw("(Some %s)" % cq(x))
+    return Raw("(Some %s)" % cs(x))
+
+
+def cq_cfgv(v):
+    if v is None:
+        return Raw("Unset")
+    if isinstance(v, bool):
+        return Raw("(CB %s)" % cq(v))
+    return Raw("(CS %s)" % cs(v))
+
+
+def cq_optv(v):
+    if v is None:
+        return Raw("C01.Model.Unset")
+    if isinstance(v, bool):
+        return Raw("(C01.Model.B %s)" % cq(v))
+    assert v == "true"
+    return Raw("C01.Model.StrTrue")
+
+
+def cq_pol(pol):
+    out = []
+    for k, sec in (pol or []):
+        if sec is None:
+            out.append(Raw("(%s, None)" % cs(k)))
+        else:
+            lt = sec.get("lifetime")
+            lts = "None" if lt is None else "(Some %s)" % cq([(cs(u), n) for u, n in lt])
+            out.append(Raw("(%s, Some (mk_sec %s %s %s))" % (cs(k), lts, cso(sec.get("nameid_format")), cq(bool(sec.get("other"))))))
+    return cq(out)
+
+
+def cq_nid(n):
+    return Raw("(mk_nid %s %s %s)" % (cso(n["format"]), cso(n["spnq"]), cso(n["nq"])))
+
+
+def cq_attrs(av):
+    return cq([(cs(k), [cs(x) for x in v]) for k, v in av])
+
+
+def cq_pairopt(p):
+    return "None" if p is None else "(Some (%s, %s))" % (cso(p[0]), cso(p[1]))
+
+
+def cq_algs(p):
+    return "None" if p is None else "(Some (%s, %s))" % (cs(p[0]), cs(p[1]))
+
+
+def coq_input(case):
+    c, a = case["cfg"], case["args"]
+    cfg = "(mk_cfg %s %s %s %s %s %s %s)" % (cs(IDP), cq_cfgv(c["sr"]), cq_cfgv(c["sa"]), cso(c["salg"]),
+                                               cso(c["dalg"]), cq_pol(c["pol"]), cso(c["domain"]))
+    nip = "None" if a["nip"] is None else "(Some (mk_nip %s %s))" % (cso(a["nip"]["format"]), cso(a["nip"]["spnq"]))
+    nameid = "None" if a["name_id"] is None else "(Some %s)" % cq_nid(a["name_id"])
+    pol = "None" if a["pol"] is None else "(Some %s)" % cq_pol(a["pol"])
+    if a["farg"] is None or a["farg"] == "empty":
+        fa = "None"
+    else:
+        fa = "(Some (mk_farg %s %s %s))" % (cso(a["farg"]["method"]), cso(a["farg"]["irt"]), cso(a["farg"]["recipient"]))
+    args = "(mk_args %s %s %s %s %s %s %s %s %s %s %s %s %s %s)" % (
+        cq_attrs(a["ident"]), cso(a["irt"]), cs(a["dest"]), cs(a["sp"]), nip, nameid, cq_pairopt(a["authn"]),
+        cso(a["issuer"]), cso(a["sign_response"]), cso(a["sign_assertion"]), cso(a["sign_alg"]),
+        cso(a["digest_alg"]), pol, fa)
+    return "(mk_in %s %s %s %s %s)" % (cfg, args, cso(case["ra"]), cq([cq_nid(n) for n in case["stored"]]), cq(case["now"]))
+
+
+def coq_outcome(obs):
+    if obs["k"] == "error":
+        return "(Error %s)" % obs["e"]
+    if obs["k"] == "other":
+        # a sentinel record that neither the model nor the spec can match
+        z = "(mk_issued %s None None 0%%Z EmptyString [] None None None 0%%Z 0%%Z 0%%Z (mk_nid None None None) Given None [] None None)"
+        return "(Issued %s)" % (z % cs("<<" + obs["why"] + ">>"))
+    src = {"given": "Given", "fresh": "Fresh"}.get(obs["src"]) or "(Reused %d)" % obs["src"]
+    return "(Issued (mk_issued %s %s %s %s %s %s %s %s %s %s %s %s %s %s %s %s %s %s))" % (
+        cs(obs["r_issuer"] or ""), cso(obs["r_irt"]), cso(obs["r_dest"]), cq(obs["r_issue"]), cs(obs["i_issuer"] or ""),
+        cq([[cs(y) for y in x] for x in obs["i_aud"]]), cso(obs["i_method"]), cso(obs["i_recipient"]), cso(obs["i_irt"]),
+        cq(obs["i_nb"]), cq(obs["i_nooa_cond"]), cq(obs["i_nooa_sc"]), cq_nid(obs["nid"]), src, cq_pairopt(obs["i_authn"]),
+        cq_attrs(obs["attrs"]), cq_algs(obs["s_response"]), cq_algs(obs["s_assertion"]))
+
+
+def coq_case(case, obs):
+    s = case["spside"]
+    if s is None or obs["k"] != "issued":
+        sp = "None"
+    else:
+        post, red = REQUESTERS[s["me"]]
+        specs = "[C04.Model.EP %s %s; C04.Model.EP %s %s]" % (cs(post), cs(POST), cs(red), cs(REDIRECT))
+        side = "(mk_sp %s %s %s %s %s %s %s %s %s %s %s)" % (
+            cs(s["me"]), cs(IDP), specs, cs(s["binding"]), cq_optv(s["wr"]), cq_optv(s["wa"]), cq_optv(s["wor"]),
+            cso(s["atd"]), cq(bool(s["allow_unsolicited"])), cq([(cs(k), cs(v)) for k, v in s["outstanding"]]), cq(s["now"]))
+        o = obs.get("sp")
+        so = "None" if o is None else "(Some (%s, %s, %s))" % (cq_attrs(o["ava"]), cq(o["nooa"]), cso(o["came_from"]))
+        sp = "(Some (%s, %s))" % (side, so)
+    return "(%s, %s, %s)" % (coq_input(case), coq_outcome(obs), sp)
+
+
+def explain_term(term):
+    return "C09.Corr.explain (%s)" % term
+
+
+# ------------------------------------------------------------------------------ generator
+DEFAULT_POL = [["default", {"lifetime": [["minutes", 15]], "nameid_format": None, "other": True}]]
+
+
+def mk_cfg(sr=None, sa=None, salg=None, dalg=None, pol="default", domain=None):
+    return {"sr": sr, "sa": sa, "salg": salg, "dalg": dalg, "pol": copy.deepcopy(DEFAULT_POL) if pol == "default" else pol,
+            "domain": domain}
+
+
+def mk_args(**kw):
+    a = {"ident": [["mail", ["a@example.org"]]], "irt": "req-1", "dest": world.SP_ACS_POST, "sp": world.SP_ID,
+         "userid": "user-1", "nip": None, "name_id": None, "authn": [AC_PW, None], "issuer": None,
+         "sign_response": None, "sign_assertion": None, "sign_alg": None, "digest_alg": None, "pol": None, "farg": None}
+    a.update(kw)
+    return a
+
+
+def mk_spside(me=world.SP_ID, wr=None, wa=None, wor=None, dt=60, atd=None, allow_unsolicited=False,
+              outstanding=(("req-1", "/came/from"),), binding=POST, now=NOW):
+    return {"me": me, "wr": wr, "wa": wa, "wor": wor, "atd": atd, "allow_unsolicited": allow_unsolicited,
+            "outstanding": [list(x) for x in outstanding], "binding": binding, "now": now + dt}
+
+
+def mk_case(tag, cfg=None, args=None, ra=None, stored=(), now=NOW, spside=None):
+    return {"tag": tag, "cfg": cfg or mk_cfg(), "args": args or mk_args(), "ra": ra, "stored": list(stored), "now": now,
+            "spside": spside}
+
+
+def nid(fmt, spnq, nq=IDP):
+    return {"format": fmt, "spnq": spnq, "nq": nq}
+
+
+WANTS = [(None, None, None), (False, None, None), (False, True, None), (None, True, None), (False, False, True),
+         ("true", "true", None), (False, False, False)]
+
+
+def gen_lattice(rng, thorough):
+    """sign_response x sign_assertion, argument x configuration: 3*7*3*7 = 441 cells, each also shown to an SP."""
+    out = []
+    for sr_a in ARGV:
+        for sr_c in CFGV:
+            for sa_a in ARGV:
+                for sa_c in CFGV:
+                    w = rng.choice(WANTS)
+                    out.append(mk_case("lattice", mk_cfg(sr=sr_c, sa=sa_c), mk_args(sign_response=sr_a, sign_assertion=sa_a),
+                                       spside=mk_spside(wr=w[0], wa=w[1], wor=w[2])))
+    return out
+
+
+STORES = [
+    [],
+    [nid(NF_T, world.SP_ID)],
+    [nid(NF_E, world.SP_ID), nid(NF_P, world.SP_ID)],
+    [nid(NF_U, AFF), nid(NF_T, AFF), nid(NF_P, world.SP_ID, None)],
+]
+NID_POLS = [
+    None,
+    [["default", {"lifetime": None, "nameid_format": NF_P}]],
+    [[world.SP_ID, {"lifetime": None, "nameid_format": NF_U}], ["default", {"lifetime": None, "nameid_format": NF_P}]],
+    [[AFF, {"lifetime": None, "nameid_format": NF_E}], ["default", {"lifetime": [["minutes", 5]], "nameid_format": None}]],
+]
+
+
+def gen_nameid(rng, thorough):
+    out = []
+    nips = [None] + [{"format": f, "spnq": q} for f in (None, "", NF_T, NF_P, NF_E, NF_U) for q in (None, AFF, world.SP_ID)]
+    nips.append({"format": None, "spnq": ""})
+    for nip in nips:
+        for st in STORES:
+            for pol in NID_POLS:
+                for given in (None, nid(NF_P, world.SP_ID)) if thorough else (None,):
+                    dom = rng.choice([None, "example.org"])
+                    out.append(mk_case("nameid", mk_cfg(pol=copy.deepcopy(pol), domain=dom),
+                                       mk_args(nip=copy.deepcopy(nip), name_id=given), stored=copy.deepcopy(st)))
+    for nip in (None, {"format": NF_T, "spnq": None}, {"format": None, "spnq": AFF}):
+        for g in (nid(NF_P, world.SP_ID), nid(None, None, None), nid(NF_E, AFF, "x")):
+            out.append(mk_case("nameid-given", mk_cfg(), mk_args(nip=copy.deepcopy(nip), name_id=g),
+                               stored=copy.deepcopy(STORES[2]), spside=mk_spside(wr=False)))
+    # e-mail identifiers need a domain
+    for dom in (None, "", "example.org"):
+        for via in ("nip", "pol"):
+            a = mk_args(nip={"format": NF_E, "spnq": None}) if via == "nip" else mk_args()
+            pol = [["default", {"lifetime": None, "nameid_format": NF_E}]] if via == "pol" else "default"
+            out.append(mk_case("nameid-email", mk_cfg(pol=pol, domain=dom), a))
+    return out
+
+
+LT = {"s": [["minutes", 7]], "r": [["seconds", 90], ["minutes", 1]], "d": [["hours", 2]], "e": [["days", 1], ["seconds", 1]]}
+
+
+def _sec(kind, which):
+    if kind == "absent":
+        return "absent"
+    if kind == "none":
+        return None
+    if kind == "empty":
+        return {"lifetime": None, "nameid_format": None}
+    if kind == "other":
+        return {"lifetime": None, "nameid_format": None, "other": True}
+    fm = {"s": NF_P, "r": NF_U, "d": NF_E, "e": NF_T}[which]
+    return {"lifetime": copy.deepcopy(LT[which]) if kind in ("both", "life") else None,
+            "nameid_format": fm if kind in ("both", "fmt") else None}
+
+
+def gen_policy(rng, thorough):
+    out = []
+    kinds4 = ("absent", "none", "both", "empty")
+    kinds6 = ("absent", "none", "both", "empty", "life", "fmt", "other")
+    cells = [(a, b, c, d, True) for a in kinds4 for b in kinds4 for c in kinds4 for d in kinds4]
+    cells += [(a, "absent", c, d, False) for a in kinds4 for c in kinds4 for d in kinds4]
+    all6 = [(a, b, c, d, r) for a in kinds6 for b in kinds6 for c in kinds6 for d in kinds6 for r in (True, False)]
+    extra = all6 if thorough else rng.sample(all6, 120)
+    sp = "https://sp2.example.org/metadata"
+    for i, (ks, kr, kd, ke, with_ra) in enumerate(cells + extra):
+        pol = []
+        for key, kind, which in ((sp, ks, "s"), (RA, kr, "r"), ("default", kd, "d"), ("", ke, "e")):
+            s = _sec(kind, which)
+            if s != "absent":
+                pol.append([key, s])
+        rng.shuffle(pol)
+        by_arg = i % 3 == 1
+        other = [["default", {"lifetime": [["weeks", 1]], "nameid_format": NF_U}]]
+        cfg = mk_cfg(pol=other if by_arg else pol, domain="example.org")
+        args = mk_args(sp=sp, dest=REQUESTERS[sp][0], pol=pol if by_arg else None)
+        out.append(mk_case("policy", cfg, args, ra=RA if with_ra else None))
+    # an unconfigured policy and an empty one
+    out.append(mk_case("policy", mk_cfg(pol=None), mk_args()))
+    out.append(mk_case("policy", mk_cfg(pol=[]), mk_args()))
+    out.append(mk_case("policy", mk_cfg(), mk_args(pol=[])))
+    return out
+
+
+def gen_farg(rng, thorough):
+    out = []
+    for m in (None, world_bearer(), SCM_SV):
+        for i in (None, "other-req", ""):
+            for r in (None, "https://elsewhere.example.org/acs", ""):
+                for irt in (None, "req-1"):
+                    for dest in ("", world.SP_ACS_POST):
+                        if not thorough and rng.random() < 0.5 and (m, i, r) != (None, None, None):
+                            continue
+                        # the acceptance models cover bearer confirmation only
+                        side = mk_spside(wr=False, allow_unsolicited=rng.random() < 0.3) if m != SCM_SV else None
+                        out.append(mk_case("farg", mk_cfg(), mk_args(irt=irt, dest=dest, farg={"method": m, "irt": i, "recipient": r}),
+                                           spside=side))
+    for irt in (None, "req-1"):
+        for dest in ("", world.SP_ACS_POST, world.SP_ACS_REDIRECT, "https://elsewhere.example.org/acs"):
+            out.append(mk_case("farg-none", mk_cfg(), mk_args(irt=irt, dest=dest), spside=mk_spside(wr=False)))
+            out.append(mk_case("farg-none", mk_cfg(), mk_args(irt=irt, dest=dest, farg="empty"),
+                               spside=mk_spside(wr=False, allow_unsolicited=True)))
+    return out
+
+
+def world_bearer():
+    return render.SCM_BEARER
+
+
+def gen_algs(rng, thorough, tables):
+    out = []
+    sig = tables["sig_allowed"]
+    dig = [d for d in tables["digest_allowed"] if "ripemd" not in d]
+    for sr, sa in ((True, False), (False, True), (True, True)):
+        for a in [None, ""] + sig + [MD5]:
+            for c in (None, SHA256, MD5):
+                out.append(mk_case("sigalg", mk_cfg(salg=c), mk_args(sign_response=sr, sign_assertion=sa, sign_alg=a),
+                                   spside=mk_spside(wr=False) if rng.random() < 0.5 else None))
+        for a in [None, ""] + dig + [DMD5]:
+            for c in (None, DSHA512, DMD5):
+                out.append(mk_case("digalg", mk_cfg(dalg=c), mk_args(sign_response=sr, sign_assertion=sa, digest_alg=a),
+                                   spside=mk_spside(wr=False) if rng.random() < 0.5 else None))
+    return out
+
+
+def gen_sp(rng, thorough):
+    """the receiving side: want_* lattice x what was signed; clock x lifetime x slack; correlation; addressing."""
+    out = []
+    for wr in OPTV:
+        for wa in OPTV:
+            for wor in OPTV:
+                for sr, sa in ((None, None), (True, None), (None, True), (True, True)):
+                    out.append(mk_case("sp-wants", mk_cfg(), mk_args(sign_response=sr, sign_assertion=sa),
+                                       spside=mk_spside(wr=wr, wa=wa, wor=wor)))
+    lifes = {"15m": ([["minutes", 15]], 900), "2d": ([["days", 2]], 172800), "0": ([["seconds", 0]], 0),
+             "neg": ([["seconds", -5]], -5), "frac": ([["milliseconds", 2500]], 2), "1d": ([["hours", 24]], 86400)}
+    for name, (lt, secs) in lifes.items():
+        dts = sorted({-2, -1, 0, 1, secs - 1, secs, secs + 1, 86399, 86400, 86401, secs + 60, secs + 61, -60, -61})
+        for dt in dts:
+            for atd in (None, 0, 60):
+                if not thorough and atd == 0 and rng.random() < 0.7:
+                    continue
+                pol = [["default", {"lifetime": lt, "nameid_format": None}]]
+                out.append(mk_case("sp-clock", mk_cfg(pol=pol), mk_args(sign_response=True),
+                                   spside=mk_spside(dt=dt, atd=atd)))
+    for outstanding in ((), (("req-1", "/a"),), (("req-0", "/b"), ("req-1", "/c")), (("req-2", "/d"),)):
+        for au in (False, True):
+            for irt in (None, "req-1", "req-2"):
+                out.append(mk_case("sp-corr", mk_cfg(), mk_args(sign_response=True, irt=irt),
+                                   spside=mk_spside(outstanding=outstanding, allow_unsolicited=au)))
+    # requester / consumer URL / SP identity mismatches
+    ids = list(REQUESTERS)
+    for sp in ids:
+        for me in ids:
+            for dest in (REQUESTERS[me][0], REQUESTERS[me][1], REQUESTERS[sp][0]):
+                out.append(mk_case("sp-addr", mk_cfg(), mk_args(sign_response=True, sp=sp, dest=dest), spside=mk_spside(me=me)))
+    for iss in (None, "", world.OTHER_ID, "https://nobody.example.org/"):
+        for sr in (True, None):
+            out.append(mk_case("sp-issuer", mk_cfg(), mk_args(sign_response=sr, issuer=iss), spside=mk_spside(wr=False)))
+    for au in (None, "empty", [AC_PW, None], [AC_PPT, "https://idp.example.org/authority"], [None, "https://a.example.org"],
+               ["", None], ["", ""], [AC_PW, ""]):
+        out.append(mk_case("sp-authn", mk_cfg(), mk_args(sign_response=True, authn=au), spside=mk_spside()))
+    return out
+
+
+UNI = ["a@example.org", "Åsa Öberg", "名前", "x y", "ÿ", "staff", "member", "O'Neil & <Sons>", "€ 100", "q\"uote",
+       "née", "~tilde~", "0", "München"]
+
+
+def rand_ident(rng):
+    names = rng.sample(ATTR_NAMES, rng.randint(1, 5))
+    av = []
+    for n in sorted(names):
+        k = rng.choice([1, 1, 2, 3])
+        vals = rng.sample(UNI, k)
+        if rng.random() < 0.3:
+            vals[0] = "".join(rng.choice("abcXYZ09-_.@åßπ") for _ in range(rng.randint(1, 12)))
+        av.append([n, vals])
+    return av
+
+
+def rand_lifetime(rng):
+    units = ["weeks", "days", "hours", "minutes", "seconds", "milliseconds", "microseconds"]
+    ks = rng.sample(units, rng.randint(0, 3))
+    rngs = {"weeks": (0, 2), "days": (-1, 3), "hours": (-2, 30), "minutes": (-10, 120), "seconds": (-100, 5000),
+            "milliseconds": (-5000, 100000), "microseconds": (-3000000, 9000000)}
+    return [[k, rng.randint(*rngs[k])] for k in ks]
+
+
+def gen_random(rng, n):
+    out = []
+    fmts = [None, "", NF_T, NF_P, NF_E, NF_U]
+    for _ in range(n):
+        sp = rng.choice(list(REQUESTERS))
+        post, red = REQUESTERS[sp]
+        pol = []
+        for key in rng.sample([sp, RA, "default", "", AFF], rng.randint(0, 4)):
+            r = rng.random()
+            pol.append([key, None if r < 0.15 else {"lifetime": rand_lifetime(rng) if rng.random() < 0.7 else None,
+                                                     "nameid_format": rng.choice(fmts[2:]) if rng.random() < 0.5 else None,
+                                                     "other": rng.random() < 0.5}])
+        by_arg = rng.random() < 0.3
+        cfg = mk_cfg(sr=rng.choice(CFGV), sa=rng.choice(CFGV), salg=rng.choice([None, None, SHA256]),
+                     dalg=rng.choice([None, None, DSHA512]), pol=DEFAULT_POL if by_arg else pol,
+                     domain=rng.choice([None, "example.org", "example.org"]))
+        nip = None if rng.random() < 0.4 else {"format": rng.choice(fmts), "spnq": rng.choice([None, None, AFF, sp])}
+        stored = [nid(rng.choice(fmts[2:]), rng.choice([sp, sp, AFF]), rng.choice([IDP, IDP, None]))
+                  for _ in range(rng.choice([0, 0, 0, 1, 2]))]
+        farg = None if rng.random() < 0.8 else {"method": None, "irt": rng.choice([None, "req-9"]),
+                                                "recipient": rng.choice([None, red])}
+        args = mk_args(ident=rand_ident(rng), irt=rng.choice(["req-1", "req-1", "id-" + "%08x" % rng.getrandbits(32), None]),
+                       dest=rng.choice([post, post, red]), sp=sp, userid="user-%d" % rng.randint(1, 3), nip=nip,
+                       name_id=None if rng.random() < 0.9 else nid(rng.choice(fmts[2:]), sp),
+                       authn=rng.choice([[AC_PW, None], [AC_PPT, "https://idp.example.org/authority"], [AC_PW, None], None]),
+                       issuer=None if rng.random() < 0.95 else IDP,
+                       sign_response=rng.choice(ARGV), sign_assertion=rng.choice(ARGV),
+                       sign_alg=rng.choice([None, None, None, SHA256, MD5]), digest_alg=rng.choice([None, None, None, DSHA512]),
+                       pol=pol if by_arg else None, farg=farg)
+        now = NOW + rng.randint(-10 ** 7, 10 ** 7)
+        w = rng.choice(WANTS)
+        spside = None
+        if rng.random() < 0.7:
+            irt = args["irt"]
+            spside = mk_spside(me=sp, wr=w[0], wa=w[1], wor=w[2], dt=rng.choice([0, 1, 30, 600, 3599, 3600, 5000, 90000]),
+                               atd=rng.choice([None, None, 120]), allow_unsolicited=rng.random() < 0.2,
+                               outstanding=((irt, "/ctx/%d" % rng.randint(0, 9)),) if irt and rng.random() < 0.85 else (),
+                               binding=POST, now=now)
+        out.append(mk_case("random", cfg, args, ra=rng.choice([None, RA]), stored=stored, now=now, spside=spside))
+    return out
+
+
+def generate(ctx):
+    rng = ctx.rng
+    t = live_tables()
+    cases = []
+    cases += gen_lattice(rng, ctx.thorough)
+    cases += gen_nameid(rng, ctx.thorough)
+    cases += gen_policy(rng, ctx.thorough)
+    cases += gen_farg(rng, ctx.thorough)
+    cases += gen_algs(rng, ctx.thorough, t)
+    cases += gen_sp(rng, ctx.thorough)
+    cases += gen_random(rng, 1500 if ctx.thorough else 200)
+    for c in cases:
+        if c["args"]["authn"] == "empty":
+            c["args"]["authn"] = [None, None]
+            c["args"]["authn_empty"] = True
+    return cases
+
+
+# ------------------------------------------------------------------------------ evidence
+def nontrivial(case, obs):
+    a, c = case["args"], case["cfg"]
+    if obs["k"] != "issued":
+        return ("refused", obs.get("e") or obs.get("why"), a["sign_response"], repr(c["sr"]))
+    pol = a["pol"] if a["pol"] is not None else c["pol"]
+    polshape = tuple(sorted((("sp" if k == a["sp"] else k), None if s is None else (s["lifetime"] is not None, s["nameid_format"]))
+                            for k, s in (pol or [])))
+    spv = None
+    if case["spside"] is not None:
+        spv = ("accepted" if obs.get("sp") else "rejected:%s" % obs.get("sp_exc"))
+    key = (a["sign_response"], repr(c["sr"]), a["sign_assertion"], repr(c["sa"]), obs["src"], obs["nid"]["format"],
+           None if a["nip"] is None else (a["nip"]["format"], a["nip"]["spnq"] == a["sp"], a["nip"]["spnq"] is None),
+           polshape, case["ra"] is not None, a["pol"] is not None,
+           None if not isinstance(a["farg"], dict) else tuple(v is not None for v in a["farg"].values()),
+           a["sign_alg"], c["salg"], a["digest_alg"], c["dalg"], a["irt"] is None, a["dest"] == "", spv)
+    return key
+
+
+def histogram(cases, observed):
+    h = {"by_tag": {}, "outcome": {}, "signed": {}, "nameid_source": {}, "nameid_format": {}, "sp": {}, "attrs_per_identity": {},
+         "lifetime_seconds": {}}
+    for c, o in zip(cases, observed):
+        h["by_tag"][c["tag"]] = h["by_tag"].get(c["tag"], 0) + 1
+        k = o["k"] if o["k"] != "error" else "error:" + o["e"]
+        if o["k"] == "other":
+            k = "other:" + o["why"]
+        h["outcome"][k] = h["outcome"].get(k, 0) + 1
+        if o["k"] != "issued":
+            continue
+        s = ("R" if o["s_response"] else "-") + ("A" if o["s_assertion"] else "-")
+        h["signed"][s] = h["signed"].get(s, 0) + 1
+        src = o["src"] if isinstance(o["src"], str) else "reused"
+        h["nameid_source"][src] = h["nameid_source"].get(src, 0) + 1
+        f = str(o["nid"]["format"]).rsplit(":", 1)[-1]
+        h["nameid_format"][f] = h["nameid_format"].get(f, 0) + 1
+        n = str(len(c["args"]["ident"]))
+        h["attrs_per_identity"][n] = h["attrs_per_identity"].get(n, 0) + 1
+        d = o["i_nooa_cond"] - o["i_nb"]
+        b = "<0" if d < 0 else "0" if d == 0 else "<=900" if d <= 900 else "<=3600" if d <= 3600 else "<=86400" if d <= 86400 else ">1d"
+        h["lifetime_seconds"][b] = h["lifetime_seconds"].get(b, 0) + 1
+        if c["spside"] is not None:
+            v = "accepted" if o.get("sp") else "rejected:%s" % o.get("sp_exc")
+            h["sp"][v] = h["sp"].get(v, 0) + 1
+    return h
